@@ -182,6 +182,7 @@ theorem decExp_arith (M K : Nat) :
     (match (if M < U64 then some M else none : Option Nat) with
       | none => Lowered.outOfRange
       | some base =>
+        if base = 0 then Lowered.ok 0 else
         match (if K < U32 then some K else none : Option Nat) with
         | none => Lowered.outOfRange
         | some e =>
@@ -191,10 +192,12 @@ theorem decExp_arith (M K : Nat) :
             match checkedMul base p with
             | none => Lowered.outOfRange
             | some r => Lowered.ok r) =
-      if (decide (M = 0) && decide (20 ≤ K)) = true then Lowered.outOfRange
-      else if M * 10 ^ K < U64 then Lowered.ok (M * 10 ^ K) else Lowered.outOfRange := by
+      if M * 10 ^ K < U64 then Lowered.ok (M * 10 ^ K) else Lowered.outOfRange := by
   by_cases hM : M < U64
   · simp only [hM, if_true]
+    by_cases hM00 : M = 0
+    · subst hM00; simp [U64]
+    simp only [hM00, if_false]
     by_cases hK : K < U32
     · simp only [hK, if_true, checkedPow10]
       by_cases hK19 : K ≤ 19
@@ -204,8 +207,7 @@ theorem decExp_arith (M K : Nat) :
       · simp only [hK19, if_false]
         have hge := pow10_ge_U64 (k := K) (by omega)
         by_cases hM0 : M = 0
-        · have : 20 ≤ K := by omega
-          simp [hM0, this]
+        · exact absurd hM0 hM00
         · have hpos : 1 ≤ M := by omega
           have : U64 ≤ M * 10 ^ K := Nat.le_trans hge (Nat.le_mul_of_pos_left _ hpos)
           have hv : ¬ (M * 10 ^ K < U64) := by omega
@@ -214,7 +216,7 @@ theorem decExp_arith (M K : Nat) :
       have hK20 : 20 ≤ K := by simp only [U32] at hK; omega
       have hge := pow10_ge_U64 (k := K) hK20
       by_cases hM0 : M = 0
-      · simp [hM0, hK20]
+      · exact absurd hM0 hM00
       · have hpos : 1 ≤ M := by omega
         have : U64 ≤ M * 10 ^ K := Nat.le_trans hge (Nat.le_mul_of_pos_left _ hpos)
         have hv : ¬ (M * 10 ^ K < U64) := by omega
@@ -227,12 +229,11 @@ theorem decExp_arith (M K : Nat) :
     simp [hM0, hv]
 
 /-- **the lowering, characterised**: on every well-formed spelling the lowering answers the
-spelled value when it is below 2^64 and `OutOfRange` otherwise — except for the family
-`zeroTimesHugePower` (`0e20`), which is refused although it spells 0. It never panics. -/
+spelled value when it is below 2^64 and `OutOfRange` otherwise (since the `0eN` fix without
+exception). It never panics. -/
 theorem lowerInt_spec (s : Spelling) (hwf : s.wf = true) :
     lowerInt s.kind s.text =
-      if s.zeroTimesHugePower = true then .outOfRange
-      else if value s < U64 then .ok (value s) else .outOfRange := by
+      if value s < U64 then .ok (value s) else .outOfRange := by
   cases s with
   | dec m e =>
     cases e with
